@@ -7,6 +7,7 @@ import (
 	"fmt"
 	"path/filepath"
 	"sort"
+	"strconv"
 	"strings"
 
 	"verifharness/hx"
@@ -118,10 +119,13 @@ func c12HeaderLine(spec string) (string, error) {
 
 func c12GzipLine(spec string) (string, error) {
 	p := strings.Split(spec, "~")
-	if len(p) != 2 {
+	if len(p) == 2 {
+		p = append(p, "-")
+	}
+	if len(p) != 3 {
 		return "", errors.New("bad gzip line " + spec)
 	}
-	if p[0] == "-" && p[1] == "-" {
+	if p[0] == "-" && p[1] == "-" && p[2] == "-" {
 		return " gzip\n", nil
 	}
 	line := " gzip {\n"
@@ -136,6 +140,12 @@ func c12GzipLine(spec string) (string, error) {
 			return "", errors.New("bad gzip level " + spec)
 		}
 		line += "  level " + p[1] + "\n"
+	}
+	if p[2] != "-" {
+		if n, err := strconv.Atoi(p[2]); err != nil || n <= 0 || strconv.Itoa(n) != p[2] {
+			return "", errors.New("bad gzip min_length " + spec)
+		}
+		line += "  min_length " + p[2] + "\n"
 	}
 	return line + " }\n", nil
 }
@@ -305,15 +315,15 @@ func c12SpellTags(stackField string) []string {
 
 var c12LogSpellings = []string{
 	"",
-	"/~a~-",                          // the default line
-	"-~a~-",                          // one argument: scope /
-	"/~a~combined|/~b~-",             // one rule, two entries, two outputs
-	"/~a~-|/~a~common",               // one rule, two entries, the same output
-	"/api~a~combined|/~a~-",          // two rules, the same output; every probe path falls under the second
-	"/~a~-|/api~a~-",                 // two rules, the first matches everything
-	"/api~a~-",                       // no rule matches a probe path: log passes the request on untouched
-	"/x~a~-|/f-~b~custom",            // /x.* under the first, /f-* under the second, /ok.txt under none
-	"/X~a~-~x|/F-~a~-|/~a~common",    // three rules, one output, scopes in upper case, a block
+	"/~a~-",                       // the default line
+	"-~a~-",                       // one argument: scope /
+	"/~a~combined|/~b~-",          // one rule, two entries, two outputs
+	"/~a~-|/~a~common",            // one rule, two entries, the same output
+	"/api~a~combined|/~a~-",       // two rules, the same output; every probe path falls under the second
+	"/~a~-|/api~a~-",              // two rules, the first matches everything
+	"/api~a~-",                    // no rule matches a probe path: log passes the request on untouched
+	"/x~a~-|/f-~b~custom",         // /x.* under the first, /f-* under the second, /ok.txt under none
+	"/X~a~-~x|/F-~a~-|/~a~common", // three rules, one output, scopes in upper case, a block
 	"/api~a~-|/c12-nolog~b~-|/~b~combined~x",
 	"/f-~b~-|/x~b~-|/x~a~custom|/~a~-", // the second rule has two entries
 }
@@ -322,8 +332,8 @@ var c12HeaderSpellings = []string{
 	"",
 	"/~b",
 	"/~i",
-	"/~i|/~d",       // two lines for one path: merged into one rule
-	"/api~b",        // no rule matches: the writer is wrapped all the same
+	"/~i|/~d",        // two lines for one path: merged into one rule
+	"/api~b",         // no rule matches: the writer is wrapped all the same
 	"/x~i|/~b|/F-~p", // three rules
 }
 
@@ -331,24 +341,28 @@ var c12GzipSpellings = []string{
 	"",
 	"-~-",
 	"-~1",
-	"/api~-",      // `not /api`: applies to every probe path
-	"/x~-",        // `not /x`: does not apply to /x.*, applies to /f-*
-	"/x~-|-~9",    // the first config is skipped for /x.*, the second applies
-	"/x~-|/X.~3",  // both skipped for /x.*
-	"-~-|-~-",     // the same line twice
+	"/api~-",           // `not /api`: applies to every probe path
+	"/x~-",             // `not /x`: does not apply to /x.*, applies to /f-*
+	"/x~-|-~9",         // the first config is skipped for /x.*, the second applies
+	"/x~-|/X.~3",       // both skipped for /x.*
+	"-~-|-~-",          // the same line twice
+	"-~-~1000",         // min_length no probe body meets: the response filters decline every response
+	"-~-~30",           // met by the template bodies and files, not by the short body or a response without Content-Length
+	"/x~-~1000|-~-~30", // /x.*: the second config's filters; /f-*: the first's
+	"-~2~56",           // exactly the length of the plain body (the boundary: compressed)
 }
 
 var c12ErrorsSpellings = []string{
 	"",
-	"a~-",         // plain
-	"a~-|b~-",     // plain, the second log file wins
-	"-~-",         // plain, bare `errors` (log to stderr)
-	"a~404",       // a page for 404
-	"a~-|-~404",   // log on one line, the page in the block of another
+	"a~-",       // plain
+	"a~-|b~-",   // plain, the second log file wins
+	"-~-",       // plain, bare `errors` (log to stderr)
+	"a~404",     // a page for 404
+	"a~-|-~404", // log on one line, the page in the block of another
 	"-~404|a~-",
-	"v~-",         // visible
+	"v~-", // visible
 	"v~-|v~-",
-	"a~-|v~-",     // a log file and visible: visible
+	"a~-|v~-", // a log file and visible: visible
 }
 
 var c12TemplatesSpellings = []string{
@@ -444,6 +458,9 @@ func c12SpelledInners() []string {
 		c12Write("200", "tok", 0, 0, "wf"), c12Write("200", "tparse", 0, 1, "w"), c12Write("-", "texec", 0, 1, "c"),
 		c12Write("201", "tok", 1, 1, "w"), c12Write("204", "plain", 0, 1, "w"), c12Write("200", "plain", 0, 1, "iw"),
 		"file:plain:" + hx.HS(c12Bodies["plain"]), "file:tok:" + hx.HS(c12Bodies["tok"]), "file:texec:" + hx.HS(c12Bodies["texec"]),
+		// flushed responses, which gzip's response filters may decline (min_length, own Content-Encoding, 204)
+		c12Write("404", "plain", 0, 1, "wf"), c12Write("-", "plain", 0, 0, "fw"), "write:200:" + body + ":0:plain:1:wf",
+		c12Write("204", "plain", 0, 0, "wf"), c12Write("200", "plain", 0, 1, "ewf"),
 	}
 }
 
